@@ -68,7 +68,7 @@ def handle (cmd : String) (args : List Int) : Option String :=
       -- sanity of the tie: the proved-correct model's own output must satisfy the Spec
       let self := failedClauses g areas a (obsOf m)
       pure (s!"spec {bad.length} " ++ " ".intercalate bad ++ s!" model {outcomeCode m} asis "
-            ++ s!"{outcomeCode (integrateAsIs g areas a)} dsasis {outcomeCode (datasetIntegrateAsIs g areas a)} "
+            ++ s!"{outcomeCode (integrateAsIs g areas a)} dsasis {outcomeCode (datasetIntegrateAsIs g areas a)} lenfb {outcomeCode (integrateLenFallback g areas a)} "
             ++ s!"self {self.length} vals {encRats vals}")
   | "C06.total" => do
       -- Σ areas (what integrating the constant 1 must give), exact
